@@ -79,6 +79,7 @@ LITERALS = [
     ("HEX_FLOAT_CONST", "0x1p0l"),
     ("CHAR_CONST", "'c'"),
     ("CHAR_CONST", "'\\''"),
+    ("CHAR_CONST", "'}'"),
     ("WCHAR_CONST", "L'c'"),
     ("U8CHAR_CONST", "u8'c'"),
     ("U16CHAR_CONST", "u'c'"),
@@ -86,6 +87,7 @@ LITERALS = [
     ("STRING_LITERAL", '"s"'),
     ("STRING_LITERAL", '"a\\"b\\\\"'),
     ("STRING_LITERAL", '"é"'),
+    ("STRING_LITERAL", '"{0}%s{"'),
     ("WSTRING_LITERAL", 'L"w"'),
     ("U8STRING_LITERAL", 'u8"s"'),
     ("U16STRING_LITERAL", 'u"s"'),
